@@ -8,10 +8,8 @@ from vlib import tla_set
 def run(name, tier, seed):
     exe = vlib.build_harness("printer", ["printer.cxx"])
     q = tier == "quick"
-    consts = {"Depth": 2, "Leaves": tla_set(["expr", "decl", "break"] if q else ["expr", "decl", "break", "return"]),
-              "Unary": tla_set(["if", "while", "do", "switch", "for", "forin", "labeled"]), "MaxBlock": 1 if q else 2}
-    if not q:
-        consts["Leaves"] = tla_set(["expr", "decl"])
+    consts = {"Depth": 2, "Leaves": tla_set(["expr", "decl", "fun", "arr"] if q else ["expr", "decl", "break", "return", "fun", "arr"]),
+              "Unary": tla_set(["if", "while", "do", "switch", "for", "forin", "labeled"]), "MaxBlock": 1}
     r = vlib.generate_and_replay("IprStmtRenderMC", name, consts, exe, ("replay-render",), (), (), 6, 3000, "8g", "Spec", "EmitR")
     s, t = r["summary"], r["tlc"]
     if s["behaviours"] == 0:
